@@ -188,7 +188,15 @@ class Interp(ExprMixin):
         return outs
 
     def exec_stmt(self, st0, stmt):
-        return self.exec_atomic(st0, lambda st: self._exec_stmt(st, stmt), getattr(stmt, "lineno", None))
+        outs = self.exec_atomic(st0, lambda st: self._exec_stmt(st, stmt), getattr(stmt, "lineno", None))
+        mc = getattr(self.ctx, "merge_calls", None)
+        if mc and len(outs) > 1 and isinstance(stmt, ast.Assign) and isinstance(stmt.value, ast.Call) \
+                and isinstance(stmt.value.func, ast.Name) and stmt.value.func.id in mc:
+            from .merge import merge_outcomes
+            merged = merge_outcomes(self, st0, outs)
+            if merged is not None:
+                return merged
+        return outs
 
     def exec_atomic(self, st0, fn, site=None):
         """Run `fn(state) -> list[Outcome] | None` under the decision oracle: every symbolic branch taken through
